@@ -185,6 +185,9 @@ func goastVerdict(af *ast.File, fset *token.FileSet, names map[string]string) ob
 }
 
 func checkC09(c *Ctx) {
+	if !c09PackageModel(c) {
+		return
+	}
 	c09Package(c)
 	c09Redecorate(c)
 	c.Assume("go/types (Uses, Defs, PkgName, scopes) gives the reference meaning of every identifier, independently of the resolvers under test")
@@ -696,4 +699,104 @@ func respellImports(src string, mode int) string {
 		out = out[:from] + lit + out[to:]
 	}
 	return out
+}
+
+// c09PackageModel: PackageFiles.tla (which file's import table an identifier is resolved against when a
+// package is decorated as a whole). The three wrong lookups are shown rejected; every layout of the model
+// (what a //line directive names, whether the file ends in an identifier) is then built as a real
+// package whose files import different packages under one name, decorated in one DecorateNode call
+// with the syntax-based resolver, and every qualified identifier has to carry the path of ITS file.
+func c09PackageModel(c *Ctx) bool {
+	cfg := func(v string, emit bool) string {
+		return fmt.Sprintf("CONSTANTS NFiles = 3 Variant = \"%s\" EmitHist = %s\nINIT Init\nNEXT Next\nINVARIANTS OwnFile Emit\nCHECK_DEADLOCK FALSE\n", v, tlaBool(emit))
+	}
+	for _, v := range []string{"whole", "name", "remember"} {
+		r, err := RunTLC(TLCRun{Module: "PackageFiles", Cfg: cfg(v, false), Workers: 2, Timeout: 10 * time.Minute})
+		if err != nil || r.Violated != "OwnFile" {
+			c.Infra("TLC did not reject the " + v + " variant of PackageFiles: " + errText(r, err))
+			return false
+		}
+	}
+	gen, err := RunTLC(TLCRun{Module: "PackageFiles", Cfg: cfg("range", true), Workers: 1, Timeout: 10 * time.Minute})
+	if err != nil || !gen.OK() {
+		c.Infra("TLC (PackageFiles) failed: " + errText(gen, err))
+		return false
+	}
+	c.TLC(gen)
+	layouts := gen.Payloads("BEH ")
+	if len(layouts) != 216 {
+		c.Infra(fmt.Sprintf("PackageFiles emitted %d layouts, expected 216", len(layouts)))
+		return false
+	}
+	for _, raw := range layouts {
+		var lay struct {
+			Files []struct {
+				Dir  string `json:"dir"`
+				Last bool   `json:"last"`
+			} `json:"files"`
+		}
+		if json.Unmarshal([]byte(raw), &lay) != nil || len(lay.Files) != 3 {
+			c.Infra("bad PackageFiles layout: " + raw)
+			return false
+		}
+		var keyParts []string
+		fset := token.NewFileSet()
+		pkg := &ast.Package{Name: "p", Files: map[string]*ast.File{}}
+		var afs []*ast.File
+		n := len(lay.Files)
+		for i, lf := range lay.Files {
+			keyParts = append(keyParts, fmt.Sprintf("%s/%v", lf.Dir, lf.Last))
+			directive := ""
+			switch lf.Dir {
+			case "sibling":
+				directive = fmt.Sprintf("//line f%d.go:1\n", (i+1)%n+1)
+			case "other":
+				directive = "//line gen.y:40\n"
+			}
+			last := fmt.Sprintf("var Z%d = x.Z()\n", i+1)
+			if lf.Last {
+				last = fmt.Sprintf("var Z%d = x.Z\n", i+1)
+			}
+			src := fmt.Sprintf("package p\n\nimport x \"example.com/pkg%d\"\n\n%svar A%d = x.A\n\n%s", i+1, directive, i+1, last)
+			name := fmt.Sprintf("f%d.go", i+1)
+			af, err := parser.ParseFile(fset, name, src, parser.ParseComments)
+			if err != nil {
+				c.Infra("PackageFiles source does not parse: " + err.Error())
+				return false
+			}
+			pkg.Files[name] = af
+			afs = append(afs, af)
+		}
+		key := "package-files|" + strings.Join(keyParts, " ")
+		c.Eval(key, true)
+		d := decorator.NewDecoratorWithImports(fset, "example.com/p", goast.WithResolver(simple.New(map[string]string{"example.com/pkg1": "x", "example.com/pkg2": "x", "example.com/pkg3": "x"})))
+		var derr error
+		if msg := guard(func() { _, derr = d.DecorateNode(pkg) }); msg != "" || derr != nil {
+			c.Fail(Finding{Sig: "package-decoration-fails", Input: key, What: fmt.Sprintf("%s %v", msg, derr), Replay: obj{"kind": "none"}})
+			continue
+		}
+		for i, af := range afs {
+			df, _ := d.Dst.Nodes[af].(*dst.File)
+			if df == nil {
+				c.Fail(Finding{Sig: "package-decoration-fails", Input: key, What: fmt.Sprintf("file %d has no decorated counterpart", i+1), Replay: obj{"kind": "none"}})
+				break
+			}
+			want := fmt.Sprintf("example.com/pkg%d", i+1)
+			var got []string
+			bad := false
+			dst.Inspect(df, func(m dst.Node) bool {
+				if id, ok := m.(*dst.Ident); ok && (id.Name == "A" || id.Name == "Z") {
+					got = append(got, id.Name+"@"+id.Path)
+					bad = bad || id.Path != want
+				}
+				return true
+			})
+			if bad || len(got) != 2 {
+				c.Fail(Finding{Sig: "package-decoration-paths-differ", Input: key, What: fmt.Sprintf("file %d of a package decorated as a whole imports %s as x; its qualified identifiers got %v", i+1, want, got), Replay: obj{"kind": "none"}})
+				break
+			}
+		}
+	}
+	c.Set("package_files_model", "PackageFiles.tla: 3 files x {no directive, //line naming a sibling, //line naming a file outside the package} x {ends in an identifier or not} x every decoration order; whole / name / remember lookups rejected; 216 layouts replayed")
+	return true
 }
